@@ -54,11 +54,24 @@ fn gen_case(prop: &str, r: &mut Rng) -> Case {
                     _ => ST::Num(r.range(1, 3) as isize),
                 })
                 .collect();
+            // every element counts, also an element equal to its neighbour (the same variable, the same literal), and the body
+            // is instantiated once per element: a body with two answers makes the number of elements visible (seeded change C12-a)
+            let mut els = els;
+            let dup = r.chance(1, 3);
+            if dup && !els.is_empty() {
+                let i = r.below(els.len());
+                let e = els[i].clone();
+                els.insert(i, e);
+            }
             colls.push(els);
             let lv = "e".to_string();
             scope.push(lv.clone());
             let nb = 1 + r.below(2);
-            let b: Vec<SG> = (0..nb).map(|_| g.goal(r, &mut scope, 1, &kinds)).collect();
+            let mut b: Vec<SG> = (0..nb).map(|_| g.goal(r, &mut scope, 1, &kinds)).collect();
+            if dup || r.chance(1, 4) {
+                let k = r.range(1, 3) as isize;
+                b.insert(0, SG::Op("conde", vec![vec![SG::Eq(ST::Var(lv.clone()), ST::Num(k))], vec![SG::True]]));
+            }
             scope.pop();
             let mut gs = vec![SG::For(lv, 0, b)];
             if r.chance(1, 2) {
@@ -162,6 +175,16 @@ pub fn corpus(prop: &str) -> Vec<MCase> {
             mk(&["x", "y"], SG::Conj(vec![SG::Eq(ST::List(vec![]), v("x")), SG::Eq(v("y"), ST::List(vec![ST::List(vec![])]))])),
         ],
         "C15" => vec![],
+        "C12" => {
+            // repeated neighbours in the collection, a body with two answers per element (C12-a)
+            let two = |k: isize| SG::Op("conde", vec![vec![SG::Eq(v("e"), n(k))], vec![SG::True]]);
+            let mkc = |colls: Vec<Vec<ST>>, body: SG| MCase { prop: prop.to_string(), case: Case { qnames: vec!["qa".into(), "qb".into()], colls, body, take: 0 }, twin_of: None };
+            vec![
+                mkc(vec![vec![v("qa"), v("qa")]], SG::Conj(vec![SG::For("e".into(), 0, vec![two(1)])])),
+                mkc(vec![vec![n(7), n(7), n(3)]], SG::Conj(vec![SG::For("e".into(), 0, vec![SG::Op("conde", vec![vec![SG::Eq(v("qa"), n(5))], vec![SG::Eq(v("e"), v("e"))]])])])),
+                mkc(vec![vec![v("qa"), v("qb"), v("qb")]], SG::Conj(vec![SG::For("e".into(), 0, vec![two(2), SG::Neq(v("e"), n(3))])])),
+            ]
+        }
         _ => vec![],
     }
 }
